@@ -13,11 +13,13 @@ CLAIMED = {
         text='Bounded symbolic execution of the real validity kernels (_validate_matrix/_check_conns, Python source of the '
              'numba functions, reached through the real validate_matrix) on a matrix of unbounded non-negative symbolic '
              'integers; z3 refutes V(M)!=Spec(M) and Spec(M)!=(M in enumerated list) per (connector settings, existence '
-             'pattern) for <=3x3 connectors; the enumerator and the counter run concretely and their output is the '
-             'right-hand side of the second query.',
+             'pattern incl. absent connectors, explicit degree override lists with gaps, degree caps) for <=3x3 connectors; '
+             'the enumerator and the counter run concretely and their output is the right-hand side of the second query; '
+             'counts (three APIs) and query order (filtered iteration first) are compared with the listing.',
         note='Trusted: z3 (LIA), the independent specification in spec/conn.py, the symx engine (each path is cross-checked '
              'by one native jitted run). Bounds: <=3x3 connectors, alphabet of 18(+3) connector types, patterns from '
-             'pools/conn.py; entries unbounded. Outside: negative entries, max_*_conn_override, >3 connectors per side.',
+             'pools/conn.py; entries unbounded. Outside: negative entries, >3 connectors per side. Thorough tier: the closing '
+             'queries of a sample of instances also go through the z3 4.8.12 and cvc5 1.0.3 binaries.',
         technique=TECH+'solver-decided set equalities over unbounded integer matrices',
         ref='DESIGN.md section 4 (C09)'),
     'C07': dict(
@@ -28,7 +30,9 @@ CLAIMED = {
              'get_all_design_vectors, inactive entries must be 0. AssignmentManagerBase._correct_is_active summarised on its '
              'own. Decode without materialising vs enumeration: for every real ApplyIterSpec of the complete encoder on the '
              'DSG templates, idx in Z symbolic: (idx in spec) <=> idx in set(iter(spec)). Canonical inactive value: '
-             '_get_inactive_value = (lo+hi)/2 in [lo,hi] for symbolic bounds.',
+             '_get_inactive_value = (lo+hi)/2 in [lo,hi] for symbolic bounds. AUXILIARY (concrete, labelled so in the evidence): on '
+             'the DSG templates every listed design carries canonical inactive values and decodes to itself with and without '
+             'materialising the instance.',
         note='Trusted: z3, symx, spec/conn.py. One known finding (D1: eager direct-hit activeness) is listed in '
              'known_findings.json and reported as KNOWN-FINDING. Not decided: that selection-choice and design-variable-node '
              'activeness agree between enumeration, create=True and create=False on whole graphs (no symbolic input).',
@@ -76,7 +80,8 @@ CLAIMED = {
              'histories through the real DSG API on flat, hierarchical and mutually-exclusive placements) with the order of '
              'taking choices and the option taken symbolic: all histories exhausted, soundness, completeness per order, dead '
              'ends only without completion; linked design variables through the real set_des_var_value (same index / same '
-             'relative position, values unbounded).',
+             'relative position, values unbounded). AUXILIARY (concrete): GraphProcessor with the complete and the fast encoder on '
+             'the same placement templates - decodes and listed rows against the predicate set (found known findings K1, K2).',
         note='Trusted: z3, symx (one native run per path). Not decided: that whole graphs with constraints across hierarchy '
              'levels offer exactly these architectures under both selection-choice encoders (graph-structure quantifier); '
              'linked choices/variables with different option counts; more choices than options for permutation/non-replacing '
@@ -92,7 +97,8 @@ CLAIMED = {
              'Native continuation of every accepting path on a second processor: restricted enumeration between the two '
              'filters of the free enumeration, decodes of restricted rows (create=True and False) are fixed points, count == '
              'rows, and after fix/decode/free, fix/free/fix/free and fix a/fix b/free/free (both orders) the processor is '
-             'observationally equal to a fresh one (variables, enumeration, counts, decodes of every free row).',
+             'observationally equal to a fresh one (variables, enumeration with_fixed=True/False in both call orders, counts, '
+             'statistics rows, decodes of every free row); re-fixing to another value without freeing equals a fresh fix.',
         note='Trusted: z3, symx. The symbolic content is the accept/reject decision over all integers/reals; the restriction '
              'and restoration laws are decided by exhausting the accepted values of the small templates (the brief\'s own '
              'quantifier: all variables x all values x sequences up to length 4). Outside: other graphs, the fast encoder, '
@@ -106,7 +112,10 @@ CLAIMED = {
              '1..5, linked groups of 2-3; z3 proves per path that every stored value is the clamp / lies in its node\'s own '
              'domain and that linked continuous values keep the relative position. IEEE behaviour: the same real code is run '
              'on z3 FloatingPoint values (Float16/32/64); "stored value in bounds or NaN" is proved after abstracting '
-             'arithmetic subterms (sound) or refuted with a model that is replayed natively with NumPy scalars of that width.',
+             'arithmetic subterms (sound) or refuted with a model that is replayed natively with NumPy scalars of that width. '
+             'Decode path: GraphProcessor.get_graph on four templates with the discrete design-variable entries symbolic in '
+             '[-3, n+3]: existing nodes carry the clamped value which the corrected vector reports, absent nodes are inactive '
+             'at the canonical value; a copy of a graph is independent of later set_des_var_value calls.',
         note='Trusted: z3 (LRA/NRA, QF_FP), the symx engine (one native run per path). Preconditions: value not NaN, lo<hi, '
              'FP magnitudes <= 2^20. Not decided: "every existing node has a value and the vector reports it" on whole '
              'decoded graphs (get_graph casts with int()/float()).',
